@@ -45,6 +45,7 @@ type c08Run struct {
 	Replies   []string `json:"replies"`  // planned replies, in request order
 	Finish    string   `json:"finish"`
 	Seed      int64    `json:"seed"`
+	DirDate   bool     `json:"dirDate"` // the telemetry directory's path contains a week date
 	Extras    bool     `json:"extras"` // add an active and an unreadable count file (must stay untouched)
 }
 
@@ -170,7 +171,12 @@ func TestVerifC08(t *testing.T) {
 }
 
 func c08One(t *testing.T, run *c08Run) {
-	w := &c08World{run: run, dir: t.TempDir(), plan: append([]string{}, run.Replies...), runs: map[string]int{}, extras: map[string]string{}}
+	base := t.TempDir()
+	if run.DirDate {
+		base = filepath.Join(base, "backup-"+c08WeekDate[1])
+		os.MkdirAll(base, 0777)
+	}
+	w := &c08World{run: run, dir: base, plan: append([]string{}, run.Replies...), runs: map[string]int{}, extras: map[string]string{}}
 	local, upload := filepath.Join(w.dir, "local"), filepath.Join(w.dir, "upload")
 	os.MkdirAll(local, 0777)
 	os.MkdirAll(upload, 0777)
